@@ -97,6 +97,11 @@ def gen(tier, rng):
     texts += bad
     for t in texts:
         out.append("oid.parse %s" % hx(t.encode()))
+    # truncated encodings of this property's typed values (scripts.truncated_leaves)
+    import scripts as _scripts
+    for (_m, _d, _sc) in _scripts.truncated_leaves([0x06]):
+        for _src in ("slice", "stingy"):
+            out.append("run %s %s %s %s" % (_m, _src, hx(_d), _sc))
     return out
 
 def relational(reqs, answers):
